@@ -18,6 +18,7 @@ from rules.c01 import INVARIANTS
 from rules import parse_e2 as PE
 import e1
 
+THOROUGH_CONFIGS = ("release", "arbitrary")
 LEVEL = "other"
 A = "stun_types::attribute::"
 
